@@ -102,6 +102,26 @@ BIG_TUPLES = [
 ]
 
 
+BIG["circ16"] = _circ(16)
+BIG["circ23"] = _circ(23)
+# special cases: explicit layer lists (h, r0, L0) far from the lattice's atmosphere, and matrices above 1024 / 2048
+# rows (three 16x16 pupils = 1248 rows; three 23x23 pupils = 2490 rows in the thorough tier)
+EXTREME_LAYERS = {
+    "r0=15m": [(0.0, 15.0, 25.0)], "r0=0.2m+12m": [(0.0, 0.2, 25.0), (5000.0, 12.0, 30.0)],
+    "r0=2mm": [(3000.0, 0.002, 10.0)], "L0=1km": [(0.0, 0.2, 1000.0)], "L0=5km@8km": [(8000.0, 0.3, 5000.0)],
+    "L0=0.5m": [(0.0, 0.2, 0.5)], "L0=100km": [(0.0, 0.2, 1.0e5)], "r0=1km": [(2000.0, 1000.0, 10.0)],
+    "L0=5cm": [(0.0, 0.2, 0.05)],
+    "12layers": [(1000.0 * k, 0.2 + 0.05 * k, 10.0 + 7.0 * (k % 4)) for k in range(12)],
+}
+SPECIALS = []
+for _name in EXTREME_LAYERS:
+    SPECIALS.append(("atm:%s:A" % _name, [("asym5", "N0", "d1"), ("3:110001010", "L90o", "d2")], _name, "57", "both"))
+    SPECIALS.append(("atm:%s:B" % _name, [("3:100100111", "Nxy", "d1"), ("2:1011", "L20", "d1"), ("2:1111", "Nx", "d2")], _name, "575", "both"))
+SPECIALS.append(("huge:3xcirc16", [("circ16", "N0", "d1"), ("circ16", "L90o", "d1"), ("circ16", "Nxy", "d1")], "r0=0.2m+12m", "557", "both"))
+SPECIALS.append(("huge:circ23+circ16", [("circ23", "L90o", "d1"), ("circ16", "N0", "d2")], "r0=0.2m+12m", "75", "both"))
+SPECIALS.append(("huge:3xcirc23", [("circ23", "N0", "d1"), ("circ23", "L20", "d1"), ("circ23", "Nxy", "d2")], "L0=1km", "557", "thorough"))
+
+
 def mask_array(name):
     n, bits = name.split(":")
     n = int(n)
@@ -118,7 +138,7 @@ def BOUNDS(tier):
             "layer_sets": ["".join(map(str, s)) for s in LAYER_SETS],
             "wavelengths_nm": [500, 700], "kinds": {k: list(map(_plain, v)) for k, v in KINDS.items()},
             "subap_size_options": {"d1": "D/n", "d2": "D/(2n)"},
-            "masks_2x2": MASKS2, "masks_3x3_named": NAMED3, "big_grids(5x5,7x7,8x8)": {"masks": BIG, "tuples": [[list(x) for x in t] for t in BIG_TUPLES]},
+            "masks_2x2": MASKS2, "masks_3x3_named": NAMED3, "special_cases(explicit atmospheres; 1248-2490 row matrices)": {"atmospheres": EXTREME_LAYERS, "cases": [x[0] for x in SPECIALS]}, "big_grids(5x5,7x7,8x8)": {"masks": BIG, "tuples": [[list(x) for x in t] for t in BIG_TUPLES]},
             "masks_3x3_le4cells": len(MASKS3_LE4) if tier == "thorough" else 0,
             "tuples": _tuple_rule(tier), "r0_scale_factor": 2.0, "threads": [1, 2]}
 
@@ -243,6 +263,9 @@ def cases(tier):
         yield Case("forms:%d" % k, {"kind": "forms", "k": k}, True)
     for t in _tuples(tier):
         yield Case(case_id(t), {"sensors": [list(s) for s in t]}, _nontrivial(t))
+    for name, spec, atm, wl, tiers in SPECIALS:
+        if tiers == "both" or tiers == tier:
+            yield Case("special:" + name, {"kind": "special", "spec": [list(x) for x in spec], "atm": atm, "wl": wl}, True)
 
 
 # ----------------------------------------------------------------------------- the real code
@@ -344,6 +367,8 @@ def evaluate(p):
     o = Out()
     if p.get("kind") == "forms":
         return _forms(o, p["k"])
+    if p.get("kind") == "special":
+        return _special(o, p)
     spec = [tuple(s) for s in p["sensors"]]
     n = len(spec)
     base = "5" * n
@@ -446,6 +471,49 @@ def evaluate(p):
                 diff = numpy.where(both_nan, 0.0, Mp.astype(float) - ser.astype(float))
                 o.close("mp_path_agrees", _maxabs(diff) / max(_maxabs(numpy.nan_to_num(ser)), 1e-300), TOL_MP)
         o.outcome(numpy.round(M0 / max(_maxabs(M0), 1e-300), 4))
+    return o
+
+
+def _special(o, p):
+    """one configuration with an explicit layer list: every clause of the statement on that build (entrywise
+    against the reference, symmetric, PSD, additive over its layers, r0 scaling, multi-process path)"""
+    spec = [(BIG.get(m, m), k, d) for m, k, d in p["spec"]]
+    layers = EXTREME_LAYERS[p["atm"]]
+    sensors = _sensor_dicts(spec, p["wl"])
+    M = numpy.asarray(build(sensors, layers))
+    o.stat("lib_calls", 1)
+    ref = slopes.slope_covariance(sensors, D_TEL, layers)
+    N = ref.shape[0]
+    o.check("shape", M.shape == (N, N), detail=M.shape)
+    if M.shape != (N, N):
+        return o
+    M64 = M.astype(float)
+    finite = bool(numpy.all(numpy.isfinite(M64)))
+    o.check("finite", finite)
+    o.check("symmetric", bool(numpy.array_equal(M, M.T, equal_nan=True)),
+            detail=None if numpy.array_equal(M, M.T, equal_nan=True) else "max |M - M^T| / max|M| = %g" % (_maxabs(M64 - M64.T) / max(_maxabs(M64), 1e-300)))
+    if not finite:
+        return o
+    w = numpy.linalg.eigvalsh(0.5 * (M64 + M64.T))
+    o.close("psd", max(0.0, -float(w[0])) / max(float(w[-1]), 1e-300), TOL_PSD)
+    err = numpy.abs(M64 - ref) / (numpy.abs(ref) + ENTRY_FLOOR * _maxabs(ref))
+    err = numpy.where(numpy.isfinite(err), err, numpy.inf)
+    for label, rs, cs in _blocks(sensors):
+        o.close("entrywise", float(numpy.max(err[rs, cs])), TOL_ENTRY, sub="blk=%s" % label)
+    if len(layers) > 1 and N <= 600:
+        s_ = sum(numpy.asarray(build(sensors, [l])).astype(float) for l in layers)
+        o.stat("lib_calls", len(layers))
+        o.close("additive_over_layers", _maxabs(M64 - s_) / max(_maxabs(s_), 1e-300), TOL_ADD)
+    M2 = numpy.asarray(build(sensors, [(h, 2.0 * r0, L0) for h, r0, L0 in layers])).astype(float)
+    c = 2.0 ** (-5.0 / 3.0)
+    o.close("r0_scaling", _maxabs(M2 - c * M64) / max(c * _maxabs(M64), 1e-300), TOL_SCALE)
+    Mp = numpy.asarray(build(sensors, layers, threads=2))
+    o.stat("lib_calls", 2)
+    if Mp.shape != M.shape:
+        o.check("mp_path_agrees", False, detail="shape %s" % (Mp.shape,))
+    else:
+        o.close("mp_path_agrees", _maxabs(Mp.astype(float) - M64) / max(_maxabs(M64), 1e-300), TOL_MP)
+    o.outcome((p["atm"], N))
     return o
 
 
